@@ -716,13 +716,16 @@ class CInterp:
         spec: {'invariant': f(interp, state) -> [(label, z3bool)], 'modifies': [var names], 'havoc': f(interp,state)}"""
         line = n["_line"]
         # 1. establish
+        st.ghost["inv_mode"] = "prove"
         for label, g in spec["invariant"](self, st):
             self.oblige(st, "%s.loop%d.init.%s" % (self.func, ordinal, label), g, line, kind="inv")
         # 2. arbitrary iteration
         h = st.copy()
         spec["havoc"](self, h)
+        h.ghost["inv_mode"] = "assume"
         for label, g in spec["invariant"](self, h):
             h.assume(g)
+        h.ghost["inv_mode"] = "prove"
         outs = []
         conds = self.eval(cond, h) if cond else [(h, True)]
         for s1, c in conds:
